@@ -101,6 +101,7 @@ void CommonLoop::runThisAfterLoop()
     if (sp_run_read_event_ != nullptr) {
         CHECK_DELETE_RESET_OBJ(sp_run_read_event_);
         CHECK_CLOSE_RESET_FD(run_event_fd_);
+        has_commit_run_req_ = false;    //! 唤醒请求随 eventfd 一同失效，否则下次 runLoop() 时 commitRunRequest() 不再写入
     }
 }
 
